@@ -87,7 +87,7 @@ def main():
             # S3 correspondence
             mod.correspond(ctx)
             # S4 search when a tie or proof is broken and no concrete violation is known yet
-            if ctx.broken and not ctx.violations and hasattr(mod, 'search'):
+            if ((ctx.broken and not ctx.violations) or os.environ.get('VERIF_FORCE_SEARCH') == '1') and hasattr(mod, 'search'):
                 mod.search(ctx, ctx.broken)
         stage('S3/S4 correspond+search')
     except Exception:
